@@ -634,7 +634,9 @@ PROPERTIES = {
     "C13": {
         "level": "proof",
         "streams": [{"stream": "markup", "profile": "chunks", "quick": 8000, "thorough": 300000, "predicate": no_panic,
-                     "spec_check": lambda io, spec, case: None, "nontrivial": lambda obs, case: obs[0].count("@") >= 2}],
+                     "spec_check": lambda io, spec, case: None, "nontrivial": lambda obs, case: obs[0].count("@") >= 2},
+                    # results handed out earlier must keep their ranges when the parser goes on to other lines
+                    {"stream": "markup", "profile": "history", "quick": 2000, "thorough": 60000, "predicate": both(no_panic, markup_ranges), "nontrivial": lambda obs, case: obs[0].startswith("OK")}],
         "assumptions": ["unicode.IsSpace/IsLetter/IsDigit/ToLower are regenerated tables of the Go toolchain in use; regexp is modelled for the two fixed patterns only"],
         "rule": "markup/chunks: chunk lists from the grammar of DESIGN C13 (text over ASCII, accented, CJK and astral characters with white space at every edge; escapes; open/close/close-all/self-closing markers with 0-3 properties of every value type, shorthand, nesting, overlap, repetition; nomarkup/select/plural/ordinal self-closing or closed by name) rendered to a line; compared: implementation = model exactly, and model = the parser-independent specification `expected` (line SPEC same); non-trivial = at least two attributes",
         "leanchecker": ["Ysgo.Props.C13", "Ysgo.Props.C13Facts"],
@@ -679,6 +681,8 @@ PROPERTIES = {
                    rule="run/faults: valid scripts in which every expression position holds a faulty expression with probability 1/2 (ill-typed operations, unknown names, null, value-less functions, dice(0), inverted ranges, NaN/Inf arguments); compared: result class only; predicate: no panic; non-trivial = at least two errors and an element after which the runner was still usable",
                    leanchecker=["Ysgo.Props.C06"]),
     "C07": runprop("snap", ("res", "v", "vis"), ("text", "dis"), 1200, 50000, predicate=both(no_panic, snapshots_immutable),
+                   # a restore while a converted command is pending, then the same command again (real goroutines)
+                   extra_streams=[{"stream": "wait", "profile": "abandon", "quick": 20, "thorough": 400, "nontrivial": lambda obs, case: True, "timeout": 1800}],
                    nontrivial=lambda obs, case: any(o.startswith("RESTORE OK") for o in obs) and sum(1 for o in obs if o.startswith("SNAP")) >= 2,
                    rule="run/snap: multi-node programs; histories over 1-3 runners of the same script mixing next, snapshot, restore into any runner in any state (mid-node, waiting for a choice, command pending, ended), host writes, and re-observation of every snapshot taken so far; compared: everything; predicate: a snapshot never changes after it was taken; non-trivial = a successful restore and at least two snapshots",
                    leanchecker=["Ysgo.Props.C07"]),
@@ -729,7 +733,9 @@ PROPERTIES = {
     },
     "C17": {
         "level": "proof",
-        "streams": [{"stream": "cmdargs", "profile": "sample", "quick": 6000, "thorough": 300000, "predicate": no_panic, "spec_check": cmdargs_spec,
+        "streams": [{"stream": "hostile", "profile": "mix", "quick": 20, "thorough": 200, "predicate": both(no_panic, order_ok), "project": lambda obs, case: [],
+                     "nontrivial": lambda obs, case: any(o.startswith("ORDER") for o in obs)},
+                    {"stream": "cmdargs", "profile": "sample", "quick": 6000, "thorough": 300000, "predicate": no_panic, "spec_check": cmdargs_spec,
                      "nontrivial": lambda obs, case: any(o.startswith("RUN cmd:") for o in obs)},
                     {"stream": "run", "profile": "cmds", "quick": 600, "thorough": 20000, "project": project_run(("res", "log"), ("text",)),
                      "predicate": no_panic, "nontrivial": lambda obs, case: any("cmd:" in o for o in obs), "shrink": shrink_ops}],
